@@ -60,6 +60,9 @@ def c_fexp(N: Names, f) -> str:
         return f"(FAdd {c_Z(f[1])})"
     if op == "const":
         return f"(FConst {c_val(N, f[1])})"
+    if op == "genconst":
+        # a plain function RETURNING a generator object: the value of the node is the list of what it yields
+        return f"(FConst {c_val(N, list(f[1]))})"
     if op == "raise":
         return f"(FRaise {c_pos(f[1])})"
     if op == "raise_if_ge":
@@ -283,6 +286,8 @@ def _fn_body(f, params, ndata, ind="    ") -> str:
         return f"{ind}return tuple({a} + {f[1]} + _j for _j in range({ndata}))\n"
     if op == "const":
         return f"{ind}return {_py(f[1])}\n"
+    if op == "genconst":
+        return f"{ind}return (_c for _c in {_py(list(f[1]))})\n"
     if op == "raise":
         return f"{ind}raise _mkerr({f[1]})\n"
     if op == "raise_if_ge":
@@ -585,6 +590,20 @@ def make_flaky_cache(fail_on):
     return FlakyCache()
 
 
+def _plain(v):
+    """Values as the harness compares them: a generator object (a value no model value corresponds to) becomes a marker string."""
+    import inspect
+    if inspect.isgenerator(v):
+        return "<generator object>"
+    if isinstance(v, dict):
+        return {k: _plain(x) for k, x in v.items()}
+    if isinstance(v, list):
+        return [_plain(x) for x in v]
+    if isinstance(v, tuple):
+        return tuple(_plain(x) for x in v)
+    return v
+
+
 def run_real(g, run, rank=None):
     """run = {runner: 'sync'|'async', inputs: {...}, select: None|[...], max_iterations: int|None,
               error_handling: 'raise'|'continue', max_concurrency: None|int, on_missing}
@@ -651,12 +670,12 @@ def run_real(g, run, rank=None):
                 obs["status"] = "mapped"
                 obs["values"] = {}
                 obs["error"] = None
-                obs["results"] = [{"status": r.status.value, "values": r.values, "error": None if r.error is None else err_id(r.error),
+                obs["results"] = [{"status": r.status.value, "values": _plain(r.values), "error": None if r.error is None else err_id(r.error),
                                    "error_is_raised_object": r.error is None or not isinstance(r.error, HgErr) or any(r.error is e for e in rr.raised),
                                    "error_repr": None if r.error is None else f"{type(r.error).__name__}: {r.error}"[:160]} for r in res]
                 raise _Done()
             obs["status"] = res.status.value
-            obs["values"] = res.values
+            obs["values"] = _plain(res.values)
             obs["error"] = None if res.error is None else err_id(res.error)
             obs["error_is_raised_object"] = res.error is None or not isinstance(res.error, HgErr) or any(res.error is e for e in rr.raised)
             obs["error_repr"] = None if res.error is None else f"{type(res.error).__name__}: {res.error}"[:200]
@@ -671,7 +690,7 @@ def run_real(g, run, rank=None):
             obs["error"] = err_id(e)
             obs["error_repr"] = f"{type(e).__name__}: {e}"[:300]
             obs["values"] = {}
-    obs["log"] = rr.log
+    obs["log"] = [(nm, _plain(kw)) for nm, kw in rr.log]
     if rec is not None:
         obs["events"] = rec.events
         obs["shutdowns"] = rec.shutdowns
